@@ -824,8 +824,20 @@ func (e *Exec) convert(v Value, from, to types.Type) Value {
 	}
 	// string <-> []byte
 	if fok && fb.Info()&types.IsString != 0 {
-		if _, ok := tu.(*types.Slice); ok {
+		if st, ok := tu.(*types.Slice); ok {
 			t := v.(*Term)
+			if str, okc := c.StrValue(t); okc && len(str) <= 256 {
+				// concrete string: a real byte slice
+				arr := &ArrayV{E: make([]Value, len(str))}
+				for i := 0; i < len(str); i++ {
+					arr.E[i] = c.BVConst(8, uint64(str[i]))
+				}
+				if len(str) == 0 {
+					return &SliceV{}
+				}
+				obj := e.newObject(types.NewArray(st.Elem(), int64(len(str))), arr, "[]byte(string)")
+				return &SliceV{Arr: obj, Len: len(str), Cap: len(str)}
+			}
 			return &BytesV{Code: t}
 		}
 	}
